@@ -11,6 +11,13 @@ from .core import WaitQ, RUNNABLE, BLOCKED, DONE
 from .sync import cur_sim
 
 
+def _dumps(obj):
+    """ForkingPickler.dumps without the exported BytesIO buffer (same pickle, default protocol)"""
+    buf = io.BytesIO()
+    ForkingPickler(buf, None).dump(obj)
+    return buf.getvalue()
+
+
 # ---------------------------------------------------------------------------- Connection
 class SimConnection(_Connection):
     """multiprocessing.connection.Connection over a simulated unix socket pair.  Framing, pickling and the
@@ -31,6 +38,14 @@ class SimConnection(_Connection):
     def _sim_read(self, handle, n):
         sim = cur_sim()
         return kernel.k_read(sim, kernel.lookup(self._owner, handle), n, what='pipe-read')
+
+    def send(self, obj):
+        """as the stdlib's, but the pickle is handed on as bytes instead of a memoryview of the BytesIO: CPython 3.12 crashes
+        (use after free in bytesiobuf_releasebuffer) when the collector meets a garbage cycle holding such a view, which an
+        asynchronous exception landing in here can create"""
+        self._check_closed()
+        self._check_writable()
+        self._send_bytes(_dumps(obj))
 
     def _send(self, buf, write=None):
         return _Connection._send(self, buf, write=self._sim_write)
@@ -186,7 +201,7 @@ class SimProcess:
         child.name_hint = self._name
         me.spawning = child
         try:
-            blob = ForkingPickler.dumps(self)
+            blob = _dumps(self)
         except BaseException:
             me.spawning = None
             kernel.close_all_fds(sim, child)
